@@ -151,7 +151,7 @@ func init() {
 			"at least 3 members were in one session, accepted changes of at least 3 state classes occurred and at least one view comparison ran",
 			func(s *e1.Stats) bool { return s.MaxMembers >= 3 && len(s.ClassesChanged) >= 3 && s.ViewCompares > 0 })
 		partConcurrent(c, a, "C01")
-		partStepThrough(c, a, []string{"join", "switch", "leave", "delete"})
+		partStepThrough(c, a, []string{"join", "switch", "leave", "delete", "compadd-vs-delete", "compadd-vs-leave", "action-vs-delete", "action-vs-leave"})
 		partGated(c, a, []func(*sut.Proc) *e2.Result{e2.G6SameKeyActionWriters, e2.G5SameKeyComponentWriters, e2.G4ModuleStateRace}, 1)
 		return a.finish(c)
 	}
@@ -198,6 +198,7 @@ func init() {
 					s.Accepted["comp_list"] > 0 && s.Marks["cascade:entity_del"]+s.Marks["cascade:departure"] > 0
 			})
 		partStoreStress(c, a)
+		partStepThrough(c, a, []string{"compadd-vs-delete", "compadd-vs-leave", "delete", "leave"})
 		return a.finish(c)
 	}
 	registry["C13"] = func(c *check.Ctx) int {
@@ -225,6 +226,7 @@ func init() {
 			func(s *e1.Stats) bool {
 				return marks(s, "action:older-timestamp", "action:equal-timestamp", "asset:replacement-attempt") && s.Joins >= 2
 			})
+		partStepThrough(c, a, []string{"action-vs-delete", "action-vs-leave", "delete", "leave"})
 		return a.finish(c)
 	}
 }
